@@ -163,6 +163,22 @@ def run(ctx):
     ctx.distinct |= {("ring",) + tuple(k) if isinstance(k, tuple) else ("ring", k) for k in sub.distinct}
     ctx.disagreements += sub.disagreements
     ctx.cov["coefficient_domain_cases"] = sub.evaluations
+    # normalisation / shift / encode family (vec_znx_normalize, vec_znx_big_normalize incl. the fused and cross-radix forms on both
+    # accumulator widths, lsh/rsh): the C08 correspondence runs every request from a garbage-filled result and compares whole
+    # results with the model and the exact oracle, so an output limb that keeps or depends on previous contents is reported here too.
+    from . import c08
+    sub8 = common.Ctx("C11", ctx.tier, ctx.seed)
+    sub8.finish = lambda **kw: (1 if sub8.violations else 0)
+    sub8._registry_done = True
+    try:
+        c08.run(sub8)
+    except Exception as e:
+        broken.append(f"normalisation sub-run crashed: {e!r}")
+    ctx.violations += sub8.violations
+    ctx.evaluations += sub8.evaluations
+    ctx.distinct |= {("norm",) + tuple(k) if isinstance(k, tuple) else ("norm", k) for k in sub8.distinct}
+    ctx.disagreements += sub8.disagreements
+    ctx.cov["normalisation_family_cases"] = sub8.evaluations
     if broken and not ctx.violations:
         ctx.violation("C11 obligation or correspondence no longer checks", {"broken": broken[:20]}, False)
     return ctx.finish(rule="random hal programs (all families incl. in-place and set_size shrink/grow); every output buffer starts from garbage, "
